@@ -901,6 +901,43 @@ def defaults_beside_explicit_lists(ck, rng, i):
         ck.count('defaults_lists.default_suite_chosen')
 
 
+def key_length_on_other_transforms(ck, rng, i):
+    """A transform is its type, its id AND its attributes: an integrity / PRF / Diffie-Hellman transform that carries a Key Length attribute is not the configured one
+    (which has none). Alone in its type it makes the offer unacceptable (NO_PROPOSAL_CHOSEN); next to the plain transform, the plain one is chosen."""
+    T = lambda t, d, k=None: {'type': t, 'id': d, 'keylen': k}
+    ttype = (3, 2, 4)[i % 3]
+    keylen = (128, 256, 64, 192)[(i // 3) % 4]
+    also_plain = (i // 12) % 2 == 1
+    base = {1: T(1, 12, 256), 3: T(3, 12), 2: T(2, 5), 4: T(4, 19)}
+    odd = dict(base[ttype], keylen=keylen)
+    offer = [base[1]] + [x for t_ in (3, 2, 4) for x in (([odd, base[t_]] if also_plain else [odd]) if t_ == ttype else [base[t_]])]
+    sim, a, b = S.make_pair(ck.seed * 53 + i)
+    sim.case = {'family': 'key-length-on-other-transforms', 'transform_type': ttype, 'key_length': keylen, 'plain_transform_offered_too': also_plain}
+    p = party.RefParty(S.A4, S.B4, rng)
+    sim.inject(b, S.A4, S.B4, p.init_request(offer, 19))
+    out = [d.data for d in sim.net if d.dst == S.A4]
+    sim.net.clear()
+    ck.count('keylen_other.requests')
+    ck.nontrivial(('keylen-on-other-transforms', ttype, keylen, also_plain))
+    if not out:
+        ck.violation('offer-with-a-key-length-on-another-transform-type:not-answered', {}, sim.case)
+        return
+    m = codec.decode(out[0], strict_bodies=False)
+    sa = next((x for x in m['payloads'] if x['type'] == codec.SA), None)
+    nts = [x['ntype'] for x in m['payloads'] if x['type'] == codec.NOTIFY]
+    if not also_plain:
+        if sa is not None or 14 not in nts:
+            ck.violation(f'transform-with-a-key-length-attribute-taken-for-the-configured-one:type-{ttype}', {'offer': offer, 'answered_sa': sa is not None, 'notifies': nts}, sim.case)
+        else:
+            ck.count('keylen_other.refused')
+        return
+    got = sa and [(t['type'], t['id'], t['keylen']) for t in sa['proposals'][0]['transforms']]
+    if sa is None or sorted(got, key=str) != sorted([(1, 12, 256), (3, 12, None), (2, 5, None), (4, 19, None)], key=str):
+        ck.violation(f'plain-transform-next-to-one-with-a-key-length-attribute-not-chosen:type-{ttype}', {'offer': offer, 'got': got, 'notifies': nts}, sim.case)
+    else:
+        ck.count('keylen_other.plain_one_chosen')
+
+
 def run(ck):
     rng = ck.rng('c11', ck.shard[0])
     n = 5000
@@ -920,6 +957,9 @@ def run(ck):
     for i in range(48 if not ck.thorough() else 960):
         if ck.mine(i // 6):
             ke_group_aliases(ck, ck.rng('kealias', i), i)
+    for i in range(24 if not ck.thorough() else 240):
+        if ck.mine(i + 6):
+            key_length_on_other_transforms(ck, ck.rng('keylen-other', i), i)
     for i in range(24 if not ck.thorough() else 480):
         if ck.mine(i + 5):
             defaults_beside_explicit_lists(ck, ck.rng('deflists', i), i)
@@ -964,6 +1004,7 @@ def verdict(ck):
     ck.floor('... whose answer was the selection over the second offer, handshake completed on it', c['resent.handshake_completed_with_the_second_exchange'], 15)
     ck.floor('requests on a connection with default lists beside a connection with its own', c['defaults_lists.requests'], 20)
     ck.floor('... answered with the default suite', c['defaults_lists.default_suite_chosen'], 6)
+    ck.floor('offers with a Key Length attribute on an integrity / PRF / DH transform', c['keylen_other.requests'], 20)
     ck.floor('tampered-response variants', len(ck.sets['tamper.labels']) + c['tamper.invalid_ke'], 34)
     ck.floor('initiator acceptances judged end to end', c['e2e.initiator_acceptance_judged'], 200)
     return None
